@@ -287,6 +287,8 @@ class Documentable:
 
     def _handle_reparenting_pre(self) -> None:
         del self.system.allobjects[self.fullName()]
+        # A linker created before the move computes links relative to the old page.
+        self._linker = None
         for o in self.contents.values():
             o._handle_reparenting_pre()
 
